@@ -117,6 +117,15 @@ theorem collect_lists {rec : Frame → Out} {P : Prog} {wh : Where} :
       · simp only [List.mem_singleton] at hl
         subst hl
         exact Or.inr (Or.inl ⟨rfl, rfl, by simp⟩)
+    | popIn m d =>
+      simp only [collect] at h
+      refine lift h ?_
+      intro l hl
+      rcases List.mem_append.1 hl with hl | hl
+      · exact Or.inl hl
+      · simp only [List.mem_singleton] at hl
+        subst hl
+        exact Or.inr (Or.inl ⟨rfl, rfl, by simp⟩)
     | superCall frm k g =>
       simp only [collect] at h
       cases hs : superFrame P wh frm with
